@@ -480,3 +480,53 @@ def impl_print(mode, tname, cc, enc, data):
     except Exception as e:  # noqa
         out.append(f"E crash {type(e).__name__}")
     return out
+
+
+# --------------------------------------------------------------------------- objects
+def impl_objects(mode, tname, cc, enc, data):
+    """decoder object, events_to_obj(events), obj_to_events of both, re-encoding — canonical lines:
+       D <obj>   the decoder's object          B <obj>   object rebuilt from the events
+       Q <0|1>   D == B (Python ==)            then `M 0 …` lines: obj_to_events(decoder object)
+       X <0|1>   obj_to_events(B) == obj_to_events(D)        Y <hex> bytes of re-encoding obj_to_events(D)
+       C <0|1>   Canonical(bytes).object == D and Canonical(object).events == events"""
+    from tpmstream.common.canonical import Canonical, Generator
+    from tpmstream.common.object import events_to_obj, obj_to_events
+    tp = resolve_type(tname)
+    kw = dict(tpm_type=tp, buffer=bytes(data), abort_on_error=(mode == "S"))
+    ccobj = TPM_CC(cc) if cc is not None else None
+    if ccobj is not None:
+        kw["command_code"] = ccobj
+    if enc:
+        kw["parameter_encryption"] = True
+    try:
+        g = Generator(Binary.marshal(**kw))
+        evs = list(g)
+        obj = g.value
+    except Exception as e:  # noqa
+        return [f"D undecodable {type(e).__name__}"]
+    out = [f"D {obj_str(obj)}"]
+    try:
+        rebuilt = events_to_obj(evs, command_code=ccobj)
+        out.append(f"B {obj_str(rebuilt)}")
+        out.append(f"Q {1 if rebuilt == obj else 0}")
+    except Exception as e:  # noqa
+        rebuilt = None
+        out += [f"B crash {type(e).__name__}", "Q 0"]
+    try:
+        e1 = list(obj_to_events(obj))
+        out += [event_line(e, 0) for e in e1]
+        e2 = list(obj_to_events(rebuilt)) if rebuilt is not None else None
+        out.append(f"X {1 if e2 == e1 else 0}")
+        out.append(f"Y {b''.join(Binary.unmarshal(e1)).hex() or '-'}")
+        out.append(f"Z {1 if e1 == evs else 0}")
+    except Exception as e:  # noqa
+        out.append(f"X crash {type(e).__name__}")
+    try:
+        if tname not in ("Response",) and not enc:
+            c1 = Canonical(bytes(data), format_in=Binary, tpm_type=tp, command_code=ccobj, lazy=False)
+            c2 = Canonical(obj)
+            ok = (c1.object == obj) and (list(c2.events) == evs)
+            out.append(f"C {1 if ok else 0}")
+    except Exception as e:  # noqa
+        out.append(f"C crash {type(e).__name__}")
+    return out
